@@ -166,8 +166,12 @@ class DiameterAssociation(object):
 
 
     def recv_message_from_queue(self) -> None:
-        while not self._stop_threads and self.transport:
-            self.transport._recv_data_available.wait(timeout=1)
+        while not self._stop_threads:
+            transport = self.transport
+            if transport is None:
+                break
+
+            transport._recv_data_available.wait(timeout=1)
 
             self.lock.acquire()
 
@@ -175,7 +179,6 @@ class DiameterAssociation(object):
                 self.lock.release()
                 break
 
-            transport = self.transport
             transport.lock.acquire()
             data_stream = self._recv_partial_stream + transport._recv_data_stream
             transport._recv_data_stream = b""
